@@ -54,7 +54,7 @@ def mk_out(mps, buf, ep, role):
         outs = [("ack", i.handshakes_out.ack), ("nak", i.handshakes_out.nak), ("toggle", tog)]
         return Pre(m), ins, outs
     t = SlicedTarget(f"sout_m{mps}_b{buf}_e{ep}", build)
-    t.params = dict(mps=mps, buf=buf, ep=ep); t.role = role; t.kind = "out"
+    t.params = dict(mps=mps, buf=buf, ep=ep); t.role = role; t.kind = "out"; t.alevel = "small"
     return t
 
 
@@ -93,15 +93,16 @@ def mk_in(prefix, mps, ep, role):
 def targets(tier):
     if tier == "quick":
         ts = [mk_in("tin", 2, 1, "r"), mk_in("cin", 8, 3, "corr"), mk_in("cin", 64, 15, "corr"),
-              mk_out(2, 3, 1, "r"), mk_out(64, 127, 2, "corr"), mk_std()]
+              mk_out(1, 1, 1, "r"), mk_out(64, 127, 2, "corr"), mk_std()]
         ts[0].rcfg = (False, [165], "[false]")
     else:
         ts = [mk_in("tin", 2, 1, "r"), mk_in("tin", 3, 2, "r"), mk_in("cin", 8, 3, "corr"), mk_in("cin", 64, 15, "corr"),
               mk_in("cin", 512, 1, "corr"),
-              mk_out(2, 3, 1, "r"), mk_out(2, 4, 3, "r"), mk_out(3, 5, 2, "r"), mk_out(8, 15, 1, "corr"),
+              mk_out(1, 1, 1, "r"), mk_out(1, 2, 3, "r"), mk_out(2, 3, 1, "r"), mk_out(8, 15, 1, "corr"),
               mk_out(64, 127, 2, "corr"), mk_out(512, 1023, 5, "corr"), mk_std()]
         ts[0].rcfg = (True, [165], "[false; true]")
         ts[1].rcfg = (False, [165], "[false]")
+        ts[5].alevel = "full"; ts[6].alevel = "full"
     return ts
 
 
@@ -213,24 +214,29 @@ def traces(target, rng, tier):
 
 # ---------------------------------------------------------------------------------------------------
 # obligations
-def out_alphabet(ep, tier):
+def out_alphabet(ep, level):
     """explicit input alphabet of the OUT-endpoint tie (a Coq list expression)"""
-    tok = [(1, 0, 0, 0), (1, 0, 0, 1), (0, 1, 0, 0), (0, 1, 1, 0), (0, 0, 0, 0), (1, 0, 1, 1)]       # is_out is_ping tok_rfr rx_rfr
-    rx = [(0, 0, 0, 0), (1, 1, 0, 0), (1, 0, 0, 0), (0, 0, 1, 0), (0, 0, 0, 1)]                       # valid next complete invalid
-    if tier != "quick":
-        rx += [(1, 1, 1, 0), (0, 1, 0, 0)]
-    pids = [0, 1] if tier == "quick" else [0, 1, 2, 3]
-    eps = [ep, ep ^ 1]
-    clrs = [0, IN.clr_word(1, 0, ep), IN.clr_word(1, 1, ep)] + ([] if tier == "quick" else [IN.clr_word(1, 0, ep ^ 2), IN.clr_word(0, 0, ep)])
+    tok = [(1, 0, 0, 0), (1, 0, 0, 1), (0, 1, 0, 0), (0, 1, 1, 0), (0, 0, 0, 0)]       # is_out is_ping tok_rfr rx_rfr
+    rx = [(0, 0, 0, 0), (1, 1, 0, 0), (0, 0, 1, 0), (0, 0, 0, 1)]                       # valid next complete invalid
+    pids = [0, 1]
+    clrs = [0, IN.clr_word(1, 0, ep), IN.clr_word(1, 1, ep)]
+    if level == "full":
+        tok += [(1, 0, 1, 1)]
+        rx += [(1, 0, 0, 0), (1, 1, 1, 0)]
+        pids += [2]
+        clrs += [IN.clr_word(1, 0, ep ^ 2)]
+    def word(io, ip, tr_, rr, v, nx, co, inv, p, e, c, sr):
+        return (io | ip << 1 | tr_ << 2 | rr << 3 | co << 4 | inv << 5 | v << 6 | nx << 7 | sr << 8 | p << 9 | e << 11 | c << 15)
     words = []
     for (io, ip, tr_, rr) in tok:
         for (v, nx, co, inv) in rx:
             for p in pids:
-                for e in eps:
-                    for c in clrs:
-                        for sr in (0, 1):
-                            words.append(io | ip << 1 | tr_ << 2 | rr << 3 | co << 4 | inv << 5 | v << 6 | nx << 7 | sr << 8
-                                         | p << 9 | e << 11 | c << 15)
+                for c in clrs:
+                    for sr in (0, 1):
+                        words.append(word(io, ip, tr_, rr, v, nx, co, inv, p, ep, c, sr))
+        # the same token kinds addressed to another endpoint
+        for (v, nx, co, inv) in rx[:3]:
+            words.append(word(io, ip, tr_, rr, v, nx, co, inv, 0, ep ^ 1, 0, 1))
     return "[" + "; ".join(str(w) for w in words) + "]", len(words)
 
 
@@ -266,7 +272,7 @@ def obligations(targets, tier):
             mps, buf, ep = t.params["mps"], t.params["buf"], t.params["ep"]
             desc = f"USBStreamOutEndpoint(endpoint_number={ep}, max_packet_size={mps}, buffer_size={buf})"
             if t.role == "r":
-                al, n = out_alphabet(ep, tier)
+                al, n = out_alphabet(ep, t.alevel)
                 obs.append(tie.rmon(f"ob_{t.name}", t, mon=f"(c14o_mon {ep})", m0="0", alpha_bits=0, alphabet=al, fuel=200000,
                                     describe=desc + f": expected_data_toggle follows the OUT toggle rule on all traces (any length) over "
                                                     f"{n} input words (token kinds, receive strobes, data PIDs, endpoint {ep}/{ep ^ 1}, "
